@@ -142,12 +142,13 @@ func TestC05WRRFreshEnum(t *testing.T) {
 
 // TestC05WRRFreshSampled: larger pools and weights outside 0..6, also pools built the admin way.
 func TestC05WRRFreshSampled(t *testing.T) {
-	sub := lab.Sub("wrr-fresh-sampled", "rapid: n 1..8, weights mostly 0..6, sometimes 7..40, sometimes negative (reachable through the admin API, which passes the "+
+	sub := lab.Sub("wrr-fresh-sampled", "rapid: n 1..8, weights mostly 0..6, sometimes 7..40, in one case of eight a pool of 2-3 with weights from {1,2,100,256,257,300,999,1000,2000}, sometimes negative (reachable through the admin API, which passes the "+
 		"operator's weight unvalidated to lb.AddBackend); pool built from configuration or by adding backends one at a time to an empty pool; same oracle as "+
 		"wrr-fresh-enum; non-trivial = n>=2 and effective weights not all equal")
 	sub.NontrivialFloor(0.6)
 	sub.Floor("n5-8", 0.3)
 	sub.Floor("weight-below-1", 0.2)
+	sub.Floor("weights-up-to-2000", 0.07)
 	lab.Check(t, sub, 1500, 30000, func(rt *rapid.T) {
 		n := rapid.IntRange(1, 8).Draw(rt, "n")
 		build := rapid.SampledFrom([]string{"config", "admin"}).Draw(rt, "build")
@@ -166,7 +167,19 @@ func TestC05WRRFreshSampled(t *testing.T) {
 				}
 			}
 		}
-		c := wrrFreshCase{Weights: ws, Via: rapid.SampledFrom([]string{"next", "serve"}).Draw(rt, "via"), Build: build,
+		via := rapid.SampledFrom([]string{"next", "serve"}).Draw(rt, "via")
+		// one case in eight: a small pool with one or two LARGE weights (no upper limit is documented);
+		// picks go through NextBackend so that sum(w) consecutive requests stay cheap
+		big := rapid.IntRange(0, 7).Draw(rt, "big") == 0
+		if big {
+			n = rapid.IntRange(2, 3).Draw(rt, "big_n")
+			ws = ws[:0]
+			for i := 0; i < n; i++ {
+				ws = append(ws, rapid.SampledFrom([]int{1, 2, 100, 256, 257, 300, 999, 1000, 2000}).Draw(rt, "big_w"))
+			}
+			via = "next"
+		}
+		c := wrrFreshCase{Weights: ws, Via: via, Build: build,
 			Load: drawLoad(rt, n, false), Obs: drawObs(rt)}
 		v, err := wrrFresh(c)
 		if err != nil {
@@ -178,6 +191,9 @@ func TestC05WRRFreshSampled(t *testing.T) {
 		}
 		if hasBelowOne(ws) {
 			labels = append(labels, "weight-below-1")
+		}
+		if big {
+			labels = append(labels, "weights-up-to-2000")
 		}
 		sub.Case(c, n >= 2 && nonUniform(ws), labels...)
 		if v != "" {
